@@ -29,14 +29,45 @@ def port_tables(F, rep):
     if b is None:
         rep.ob("E6.port", False, "<game::Port as std::fmt::Display>::fmt", "missing", "no Display for Port")
         return
-    for n in tir.walk(b["tir"]["value"]):
+    root = b["tir"]["value"]
+    for n in tir.walk(root):
         if n.get("k") == "Match":
+            labels = {}
             for a in n["arms"]:
                 p = a["pat"]
+                while p.get("k") == "Ref":
+                    p = p["pat"]
+                var = None
                 if p.get("k") == "Lit" and p["e"].get("k") == "Path":
-                    pieces = fmtspec.format_pieces(a["body"]) or (fmtspec.find_format(a["body"]) or [None])[0]
-                    if pieces and all(k == "lit" for k, _ in pieces):
-                        disp[p["e"]["path"].split("::")[-1]] = "".join(v for _, v in pieces)
+                    var = p["e"]["path"].split("::")[-1]
+                elif p.get("k") == "Path":
+                    var = (p.get("path") or "").split("::")[-1]
+                if var is None:
+                    continue
+                pieces = fmtspec.format_pieces(a["body"]) or (fmtspec.find_format(a["body"]) or [None])[0]
+                if pieces and all(k == "lit" for k, _ in pieces):
+                    disp[var] = "".join(v for _, v in pieces)
+                else:
+                    lb = L.strip_try(a["body"])
+                    if lb.get("k") == "Lit" and lb.get("lit") == "str":
+                        labels[var] = lb["v"]
+            if labels:
+                # `let label = match self { .. => "P1", .. }` written out unchanged by write_str / a bare `{}`
+                bound = None
+                for s_ in tir.walk(root):
+                    if s_.get("k") == "Let" and s_["pat"].get("k") == "Bind" and L.strip_try(s_.get("init") or {}) is n:
+                        bound = s_["pat"]["id"]
+                for w in tir.walk(root):
+                    if w.get("k") == "MethodCall" and w["method"] == "write_str" and len(w["args"]) == 1:
+                        a0 = strip(w["args"][0])
+                        if (bound is not None and a0.get("id") == bound) or a0 is n:
+                            disp.update(labels)
+                    if w.get("k") == "MethodCall" and w["method"] == "write_fmt":
+                        pieces = fmtspec.format_pieces(w["args"][0]) or []
+                        if len(pieces) == 1 and pieces[0][0] == "arg" and fmtspec.is_default_spec(pieces[0][1]) and pieces[0][1].get("trait") == "display":
+                            ex = strip(pieces[0][1].get("expr") or {})
+                            if bound is not None and ex.get("id") == bound:
+                                disp.update(labels)
             break
     parse = {}
     b = F.body("game::Port::parse")
@@ -50,6 +81,16 @@ def port_tables(F, rep):
                         v = strip(body["args"][0])
                         if v.get("k") == "Path":
                             parse[p["e"]["v"]] = v["path"].split("::")[-1]
+                    elif p.get("k") == "Lit" and p["e"].get("lit") == "str" and body.get("k") == "Path" and body.get("res") == "def":
+                        # `let port = match s { "P1" => Port::P1, .., _ => return Err(..) }; Ok(port)`
+                        bound = None
+                        for s_ in tir.walk(b["tir"]["value"]):
+                            if s_.get("k") == "Let" and s_["pat"].get("k") == "Bind" and L.strip_try(s_.get("init") or {}) is n:
+                                bound = s_["pat"]["id"]
+                        oks = [c for c in tir.walk(b["tir"]["value"]) if c.get("k") == "Call" and (declared(c) or "").endswith("::Ok") and len(c["args"]) == 1
+                               and ((bound is not None and strip(c["args"][0]).get("id") == bound) or strip(c["args"][0]) is n)]
+                        if oks:
+                            parse[p["e"]["v"]] = body["path"].split("::")[-1]
                 break
     en = F.enums.get("game::Port")
     variants = [v["name"] for v in en["variants"]] if en else []
@@ -105,15 +146,10 @@ def portdata_rule(F, rep):
         for name, e in fields:
             if name == "follower":
                 e = L.strip_try(e)
-                if e.get("k") == "Match" and tir.place(e["scrut"]) == "port.follower":
-                    arms = {}
-                    for a in e["arms"]:
-                        body = L.strip_try(a["body"])
-                        some = body.get("k") == "Call" and (declared(body) or "").endswith("Some")
-                        none = body.get("k") == "Path" and (body.get("path") or "").endswith("None")
-                        key = a["pat"]["e"].get("v") if a["pat"].get("k") == "Lit" else "_"
-                        arms[key] = "some" if some else ("none" if none else "?")
-                    ok = arms.get(True) == "some" and (arms.get(False) == "none" or arms.get("_") == "none")
+                bb = tir.bool_branch(e)
+                if bb is not None and tir.place(bb[0]) == "port.follower" and bb[2] is not None:
+                    bt, bf = L.strip_try(bb[1]), L.strip_try(bb[2])
+                    ok = (bt.get("k") == "Call" and (declared(bt) or "").endswith("Some")) and (bf.get("k") == "Path" and (bf.get("path") or "").endswith("None"))
                 elif e.get("k") == "MethodCall" and e["method"] in ("then", "then_some") and tir.place(e["recv"]) == "port.follower":
                     ok = True
     rep.ob("L4.PortData.follower", ok, "frame::mutable::PortData::with_capacity", "follower", "follower data must exist exactly when PortOccupancy.follower is set")
